@@ -76,8 +76,12 @@ PROPS = {
     },
     "C04": {
         "test": "TestC04", "variant": "elem",
-        "quick": {"shards": 16, "timeout": 1500},
-        "thorough": {"shards": 16, "timeout": 7200},
+        "quick": {"shards": 16, "timeout": 1500, "matrix": [{"cpus": c, "gomaxprocs": g} for (c, g) in
+                                                         ((16, None), (3, None), (5, None), (16, 3), (6, None), (7, None), (16, 5), (1, None),
+                                                          (16, None), (12, None), (16, 6), (2, None), (16, 7), (16, None), (9, None), (16, 12))]},
+        "thorough": {"shards": 16, "timeout": 7200, "matrix": [{"cpus": c, "gomaxprocs": g} for (c, g) in
+                                                            ((16, None), (3, None), (5, None), (16, 3), (6, None), (7, None), (16, 5), (1, None),
+                                                             (16, None), (12, None), (16, 6), (2, None), (16, 7), (16, None), (9, None), (16, 12))]},
         "rule": "polynomial kind x evaluation point class {0,1,2,127,128,254,255,256,257,2^64-1,2^64,2^128,r-3..r-1,0..600,"
                 "uniform} x 3..6 claimed results {correct,+1,-1,0,-correct,neighbouring evaluations,2*correct,the point itself,"
                 "uniform}; points 254,255,256,257,0,r-1 are forced into every shard. Non-trivial = point outside the domain or "
@@ -122,8 +126,12 @@ PROPS = {
     },
     "C07": {
         "test": "TestC07", "variant": "elem",
-        "quick": {"shards": 16, "timeout": 1500},
-        "thorough": {"shards": 16, "timeout": 7200},
+        "quick": {"shards": 16, "timeout": 1500, "matrix": [{"cpus": c, "gomaxprocs": g} for (c, g) in
+                             ((16, None), (16, 1), (3, None), (16, None), (16, 3), (5, None), (16, None), (16, 2),
+                              (1, None), (16, None), (16, 5), (7, None), (16, None), (2, None), (16, 7), (16, None))]},
+        "thorough": {"shards": 16, "timeout": 7200, "matrix": [{"cpus": c, "gomaxprocs": g} for (c, g) in
+                             ((16, None), (16, 1), (3, None), (16, None), (16, 3), (5, None), (16, None), (16, 2),
+                              (1, None), (16, None), (16, 5), (7, None), (16, None), (2, None), (16, 7), (16, None))]},
         "rule": "histories of 3..30 API calls growing a pool of elements from the generator and identity: k*G, CRS points, "
                 "Add/Sub/Double/Neg, ScalarMul with recipe and GLV-edge scalars, MultiExp over pool elements, Commit of sparse "
                 "vectors (table path), decode of Bytes(), trusted uncompressed round trip, Normalize / BatchNormalize in place, "
@@ -138,8 +146,12 @@ PROPS = {
     },
     "C11": {
         "test": "TestC11", "variant": "elem",
-        "quick": {"shards": 16, "timeout": 1500},
-        "thorough": {"shards": 16, "timeout": 7200},
+        "quick": {"shards": 16, "timeout": 1500, "matrix": [{"cpus": c, "gomaxprocs": g} for (c, g) in
+                             ((16, None), (16, 1), (3, None), (16, None), (16, 3), (5, None), (16, None), (16, 2),
+                              (1, None), (16, None), (16, 5), (7, None), (16, None), (2, None), (16, 7), (16, None))]},
+        "thorough": {"shards": 16, "timeout": 7200, "matrix": [{"cpus": c, "gomaxprocs": g} for (c, g) in
+                             ((16, None), (16, 1), (3, None), (16, None), (16, 3), (5, None), (16, None), (16, 2),
+                              (1, None), (16, None), (16, 5), (7, None), (16, None), (2, None), (16, 7), (16, None))]},
         "rule": "pool histories as in C07 (3..24 calls) plus a batch of length {0,1,2,3,15,16,17,100,255,256,257,300,uniform<=300} "
                 "of pool pointers (random with repeats / sequential / triplicated). Non-trivial = the pool contains an element "
                 "with Z != 1 (results of MSM, table, GLV, rescaling paths); distinct by the case.",
@@ -270,8 +282,12 @@ PROPS = {
     },
     "C19": {
         "test": "TestC19", "variant": "elem",
-        "quick": {"shards": 16, "timeout": 1500, "matrix": [{"cpus": c} for c in (16, 1, 3, 16, 2, 5, 16, 7)]},
-        "thorough": {"shards": 16, "timeout": 7200, "matrix": [{"cpus": c} for c in (16, 1, 2, 3, 4, 5, 7, 16)]},
+        "quick": {"shards": 16, "timeout": 1500, "matrix": [{"cpus": c, "gomaxprocs": g} for (c, g) in
+                                                         ((16, None), (1, None), (3, None), (16, 1), (2, None), (5, None), (16, 3), (7, None),
+                                                          (16, None), (16, 2), (3, 16), (16, 5), (1, 4), (16, None), (6, None), (16, 7))]},
+        "thorough": {"shards": 16, "timeout": 7200, "matrix": [{"cpus": c, "gomaxprocs": g} for (c, g) in
+                                                            ((16, None), (1, None), (3, None), (16, 1), (2, None), (5, None), (16, 3), (7, None),
+                                                             (16, None), (16, 2), (3, 16), (16, 5), (1, 4), (16, None), (6, None), (16, 7))]},
         "rule": "lists of length {0,1,2,3,NumCPU-1..NumCPU+1,2NumCPU+1,255,256,257,300, uniform<=60} of pointers to private copies "
                 "of pool elements (pool grown by an API history as in C07: mixed normalised / projective / sign-flipped, identity "
                 "included) with aliasing pattern {all distinct, all the same pointer, blocks of 3, two interleaved, random "
